@@ -343,3 +343,39 @@ def standard(prop, tier, seed, engines, assumptions, known_witnesses=None, extra
     if extra:
         extra(r)
     return r.finish()
+
+
+def generic_replay(prop, engines, path):
+    """./check Cxx --replay <file>: re-run the recorded case on the current tree (and on the model)
+    and print both outcomes plus the monitor's verdict."""
+    import json as _json
+    rec = _json.load(open(path))
+    print("replay file:", path)
+    print("kind:", rec.get("kind"))
+    name = rec.get("engine")
+    case = rec.get("case")
+    if not name or case is None:
+        print(_json.dumps(rec, indent=1)[:4000])
+        print("(nothing executable recorded: this replay names the proof obligation / correspondence item that no longer checks)")
+        return 0
+    eng = next((e for e in engines if e.name == name), None)
+    if eng is None:
+        print("engine %s is not wired for %s" % (name, prop))
+        return 2
+    exe, err = C.build_harness(eng.crate, eng.exe)
+    if exe is None:
+        print(err[-3000:])
+        return 2
+    a = eng.canon(C.run_lines(exe, [case], shards=1)[0])
+    print("case:           ", case)
+    print("implementation: ", a)
+    if not getattr(eng, "model_free", False):
+        m = C.build_model(eng.exe)
+        b = eng.canon(C.run_lines(m, [eng.model_input(case, a)], shards=1)[0])
+        print("model:          ", b)
+        print("agree:          ", a == b)
+    hits = eng.monitor(case, a)
+    print("monitor:        ", hits if hits else "no clause violated")
+    if "recorded impl_output" not in rec and rec.get("impl_output"):
+        print("recorded impl:  ", rec.get("impl_output"))
+    return 0
